@@ -480,7 +480,7 @@ def known_keys():
     if not os.path.exists(FINDINGS_FRAGMENT):
         return []
     data = json.load(open(FINDINGS_FRAGMENT))
-    return sorted({f["key"] for f in data.get("findings", []) if f.get("status") == "open" and f.get("table_key")})
+    return sorted({f["key"] for f in data.get("findings", []) if f.get("status") == "open"})
 
 
 def render(rows, namespace="Generated"):
